@@ -15,7 +15,8 @@ def base_cfg(rs, pid, nres=None, nobj=1):
             "length": rs.choice([6, 12, 20, 30]), "depth": rs.choice([1, 2]), "uuid_seed": rs.getrandbits(32),
             "nres": nres or rs.choice([1, 2, 3]), "nobj": nobj, "kinds": [G.pick(rs, ["dict", "list"]) for _ in range(3)],
             "capmode": capmode, "forced_flush_possible": capmode == "small",
-            "p_ctx": rs.choice([0.2, 0.35]), "p_mut": rs.choice([0.4, 0.7]), "max_ctx": 4}
+            "p_ctx": rs.choice([0.2, 0.35]), "p_mut": rs.choice([0.4, 0.7]), "max_ctx": 4,
+            "p_dropgc": rs.choice([0.0, 0.0, 0.06])}
 
 
 def setup(w, rg):
@@ -45,6 +46,10 @@ def gen_ctx_step(w, rg, allow_obj=True, allow_backend=True, exit_bias=0.45):
     if allow_backend:
         choices.append("backend")
     kind = G.pick(rg, choices)
+    if kind == "obj" and not any(o.alive for o in w.objs):
+        kind = "backend" if allow_backend else None     # every object was dropped (drop_gc): only exits / backend contexts remain
+        if kind is None:
+            return {"t": "exit"} if w.ctx else None
     if kind == "obj":
         obs = [o for o in w.objs if o.alive]
         return {"t": "enter", "ctx": "obj", "oid": G.pick(rg, obs).oid}
@@ -63,9 +68,14 @@ def gen_step(w, rg, reads=None, muts=None, mut_weight=None):
     if cfg["capmode"] == "small" and roll < cfg["p_ctx"] + 0.05:
         k = G.pick(rg, sorted(set(cfg["kinds"][:cfg["nres"]])))
         return {"t": "setcap", "family": cfg["family"], "kind": k, "n": small_cap(rg, cfg)}
+    if cfg.get("p_dropgc") and rg.random() < cfg["p_dropgc"]:
+        cand = [o for o in w.objs if o.alive and o.depth == 0 and w.backend_depth.get(o.cls)]
+        if cand:
+            # the object goes out of scope inside the backend-wide context and the garbage collector runs
+            return {"t": "drop_gc", "oid": G.pick(rg, cand).oid}
     hs = G.attached_handles(w)
     if not hs:
-        return None
+        return gen_ctx_step(w, rg) if w.ctx else None
     nested = [h for h in hs if h.path]
     h = G.pick(rg, nested) if nested and rg.random() < 0.4 else G.pick(rg, hs)
     if rg.random() < 0.15:
